@@ -7,6 +7,7 @@ import (
 
 	"github.com/jsightapi/jsight-schema-go-library/fs"
 	"github.com/jsightapi/jsight-schema-go-library/notations/jschema"
+	"github.com/jsightapi/jsight-schema-go-library/notations/regex"
 	"github.com/jsightapi/jsight-schema-go-library/rules/enum"
 
 	"github.com/jsightapi/jsight-api-go-library/jerr"
@@ -29,6 +30,7 @@ type lexObs struct {
 	Frames []string        `json:"frames,omitempty"`
 	Len    int             `json:"len"`
 	Orc    [][2]int        `json:"orc"` // schema library's own length for every schema / enum lexeme begin
+	Rx     [][2]int        `json:"rx"`  // regex library's own length for every regex text lexeme begin (-1 = error)
 	Final  string          `json:"final,omitempty"`
 	Stack  []string        `json:"stack,omitempty"`
 }
@@ -57,6 +59,19 @@ func libLen(data []byte, pos int, isEnum bool) (n int) {
 	return int(l)
 }
 
+func regexLen(data []byte, pos int) (n int) {
+	defer func() {
+		if recover() != nil {
+			n = -1
+		}
+	}()
+	l, err := regex.New("", data[pos:]).Len()
+	if err != nil {
+		return -1
+	}
+	return int(l)
+}
+
 func cmdLex(line []byte, emit func(interface{})) {
 	var c lexCase
 	if err := json.Unmarshal(line, &c); err != nil {
@@ -69,7 +84,7 @@ func cmdLex(line []byte, emit func(interface{})) {
 		return
 	}
 	emit(map[string]string{"begin": c.ID})
-	o := &lexObs{ID: c.ID, ErrIdx: -1, Len: len(data), Lex: [][3]int{}, Orc: [][2]int{}}
+	o := &lexObs{ID: c.ID, ErrIdx: -1, Len: len(data), Lex: [][3]int{}, Orc: [][2]int{}, Rx: [][2]int{}}
 	func() {
 		defer func() {
 			if r := recover(); r != nil {
@@ -77,6 +92,7 @@ func cmdLex(line []byte, emit func(interface{})) {
 				o.Frames = frames()
 			}
 		}()
+		lastKw := ""
 		s := scanner.NewJApiScanner(fs.NewFile("in.jst", data))
 		for n := 0; n < 4*len(data)+16; n++ {
 			var lx *scanner.Lexeme
@@ -93,6 +109,13 @@ func cmdLex(line []byte, emit func(interface{})) {
 			o.Lex = append(o.Lex, [3]int{int(lx.Type()), int(lx.Begin()), int(lx.End())})
 			if lx.Type() == scanner.Schema || lx.Type() == scanner.Enum {
 				o.Orc = append(o.Orc, [2]int{int(lx.Begin()), libLen(data, int(lx.Begin()), lx.Type() == scanner.Enum)})
+			}
+			if lx.Type() == scanner.Keyword && int(lx.End()) < len(data) {
+				lastKw = string(data[lx.Begin() : lx.End()+1])
+			}
+			// a text lexeme that is not a description is a regex body: ask the regex library for its extent
+			if lx.Type() == scanner.Text && lastKw != "Description" && int(lx.Begin()) < len(data) {
+				o.Rx = append(o.Rx, [2]int{int(lx.Begin()), regexLen(data, int(lx.Begin()))})
 			}
 			if c.Steps {
 				o.Steps = append(o.Steps, []interface{}{s.VerifStepName(), len(s.VerifStepStack()), int(s.CurrentIndex())})
